@@ -44,6 +44,7 @@ type HeapCtx struct {
 	d        *Decls
 	arrSorts map[string]*Sort // heap array name -> sort (everything ever touched)
 	seen0    map[string]bool
+	opaque   map[string]string // opaque predicate bodies -> symbol
 	emit     func(t *Term) // adds an unconditional assumption
 }
 
@@ -346,4 +347,28 @@ func (h *HeapCtx) immAt(s, i *Term, elem types.Type) *Term {
 	name := "imm_at_" + es.Mangle()
 	h.d.Fun(name, []*Sort{SSlc, SInt}, es)
 	return mk(es, name, s, i)
+}
+
+// arraysOfTypeMem: arrays holding a value of type ty in memory (arrays are element-wise).
+func (h *HeapCtx) arraysOfTypeMem(ty types.Type, out map[string]*Sort) { h.arraysOfType(ty, out) }
+
+// arrSlice: the slice x[:] of an array value treated as an immutable temporary (a function of the content)
+func (h *HeapCtx) arrSlice(arr *Term) *Term {
+	fn := "conv_" + arr.Sort.Mangle() + "_Slice"
+	h.d.Fun(fn, []*Sort{arr.Sort}, SSlc)
+	return mk(SSlc, fn, arr)
+}
+
+// elemsOf: the set of element values of slice s in memory array m, as an SMT array (T -> Bool),
+// axiomatised with a Skolem index function so that membership has usable triggers.
+func (h *HeapCtx) elemsOf(m, s *Term, es *Sort) *Term {
+	en := "elems_" + es.Mangle()
+	in := "idxof_" + es.Mangle()
+	ms := SArray(SPtr, es)
+	rs := SArray(es, SBool)
+	h.d.Fun(en, []*Sort{ms, SSlc}, rs)
+	h.d.Fun(in, []*Sort{ms, SSlc, es}, SInt)
+	h.d.Raw(en+"$ax", fmt.Sprintf(`(assert (forall ((m %[1]s) (s Slice) (j Int)) (! (=> (and (<= 0 j) (< j (s_len s))) (select (%[2]s m s) (select m (s_elem s j)))) :pattern ((%[2]s m s) (select m (s_elem s j))))))
+(assert (forall ((m %[1]s) (s Slice) (x %[3]s)) (! (=> (select (%[2]s m s) x) (and (<= 0 (%[4]s m s x)) (< (%[4]s m s x) (s_len s)) (= (select m (s_elem s (%[4]s m s x))) x))) :pattern ((select (%[2]s m s) x)))))`, ms.Name, en, es.Name, in))
+	return mk(rs, en, m, s)
 }
